@@ -244,6 +244,7 @@ func runC14(c *Ctx) {
 	R.Extra["decision_table_variants"] = total
 
 	checkWSReadBuffer(c)
+	checkWSUnmaskRule(c, "C14.unmask", false)
 	checkWSLimit(c, e, fn)
 	checkWSLen64(c, fn)
 	checkWSClose1002(c, fn)
